@@ -146,6 +146,14 @@ func (pc *PathCtx) Trail() []string {
 
 func (pc *PathCtx) Fn() *ssa.Function { return pc.fn }
 
+// PredBlock: the block the current path came from (nil at the entry).
+func (pc *PathCtx) PredBlock() *ssa.BasicBlock {
+	if p, ok := pc.par[pc.cur]; ok {
+		return p.b
+	}
+	return nil
+}
+
 // RunPaths explores fn from state init; returns the set of states at normal returns.
 func (c *Ctx) RunPaths(fn *ssa.Function, init uint64, rule *PathRule) []uint64 {
 	memo := map[memoKey][]uint64{}
@@ -290,8 +298,12 @@ func (c *Ctx) runPaths(fn *ssa.Function, init uint64, rule *PathRule, depth int,
 		}
 		for si, succ := range n.b.Succs {
 			nAlt := 1
-			if rule.Edge != nil {
-				if a := pc.edgeFactAlts(n.b, si); len(a) > 1 {
+			{
+				a := pc.edgeFactAlts(n.b, si)
+				if isInfeasible(a) {
+					continue
+				}
+				if rule.Edge != nil && len(a) > 1 {
 					nAlt = len(a)
 				}
 			}
@@ -372,7 +384,7 @@ func (pc *PathCtx) stepAfterInline(s uint64, ins ssa.Instruction) uint64 { retur
 // that flowed in from the block the current path came from.
 func (pc *PathCtx) edgeFacts(from *ssa.BasicBlock, si int) []Fact {
 	alts := pc.edgeFactAlts(from, si)
-	if len(alts) == 0 {
+	if len(alts) == 0 || isInfeasible(alts) {
 		return nil
 	}
 	if pc.alt < len(alts) {
@@ -422,7 +434,9 @@ func (pc *PathCtx) edgeFactAlts(from *ssa.BasicBlock, si int) [][]Fact {
 		}
 	}
 	if b, isConst := constBool(cond); isConst {
-		_ = b
+		if b != holds {
+			return infeasibleEdge
+		}
 		return nil
 	}
 	if call, ok := cond.(*ssa.Call); ok {
@@ -436,6 +450,14 @@ func (pc *PathCtx) edgeFactAlts(from *ssa.BasicBlock, si int) [][]Fact {
 		}
 	}
 	return [][]Fact{condFacts(cond, holds)}
+}
+
+// infeasibleEdge: the condition of the edge is a boolean whose value is known on the current path (a phi of
+// constants, the value form of `a && b`) and it disagrees with the edge.
+var infeasibleEdge = [][]Fact{{{X: nil, Y: nil, Eq: false}}}
+
+func isInfeasible(alts [][]Fact) bool {
+	return len(alts) == 1 && len(alts[0]) == 1 && alts[0][0].X == nil && alts[0][0].Y == nil
 }
 
 var predicateMemo = map[*ssa.Function]map[bool][][]Fact{}
